@@ -92,7 +92,7 @@ structure Stored where
 abbrev CacheDir := List Stored
 
 inductive Probe
-  | absent                      -- local index file does not exist / nothing cached offline (skipped with a warning)
+  | absent                      -- local index file does not exist (skipped with a warning)
   | fail                        -- HEAD not 200
   | found (tok : Option Text)   -- token under which the parsed index is remembered (`none`: not remembered)
   deriving Repr
@@ -101,9 +101,10 @@ inductive Probe
 def probe (n : Net) (cd : CacheDir) (url : Text) : Probe :=
   if isRemote url then
     if n.offline then
-      -- nothing was ever stored for this index: the listing error is an `fs.ErrNotExist`, which
-      -- `GetRepositoryIndexes` takes for a missing local index (warning, skipped)
-      if cd.any (fun s => s.url == url) then .found none else .absent
+      -- nothing was ever stored for this index: the listing error is an `fs.ErrNotExist`; since the repair of
+      -- F19f `GetRepositoryIndexes` skips only LOCAL repositories on that error, so the read fails
+      -- (before the repair the repository was skipped with a warning, like a missing local index)
+      if cd.any (fun s => s.url == url) then .found none else .fail
     else
       match n.remote url with
       | none => .fail
